@@ -2762,6 +2762,48 @@ func ruleDecoderConfig(p *Prog, r *Report) {
 		})
 	}
 	if len(sites) < 2 {
+		// one shared set-up function: every decoder the element parsers get comes out of an unexported function that creates and
+		// configures it, so all callers agree by construction
+		var makers []*ssa.Function
+		for _, f := range p.PkgFuncs("mxj") {
+			if len(f.Blocks) == 0 || p.Exported(f) || f.Signature.Results().Len() == 0 || !strings.HasSuffix(typeStr(f.Signature.Results().At(0).Type()), "xml.Decoder") {
+				continue
+			}
+			creates := false
+			eachInstr(f, func(b *ssa.BasicBlock, in ssa.Instruction) {
+				if c, ok := in.(*ssa.Call); ok && isCallTo(&c.Call, "encoding/xml.NewDecoder") {
+					creates = true
+				}
+			})
+			if creates {
+				makers = append(makers, f)
+			}
+		}
+		if len(sites) == 0 && len(makers) == 1 {
+			users := 0
+			for _, f := range p.PkgFuncs("mxj") {
+				if len(f.Blocks) == 0 {
+					continue
+				}
+				eachInstr(f, func(b *ssa.BasicBlock, in ssa.Instruction) {
+					c, ok := in.(*ssa.Call)
+					if !ok || staticCallee(&c.Call) != makers[0] || c.Referrers() == nil {
+						return
+					}
+					for _, ref := range *c.Referrers() {
+						if x, ok := ref.(*ssa.Call); ok {
+							if nm := p.calleeName(&x.Call); nm == "mxj.xmlToMapParser" || nm == "mxj.xmlSeqToMapParser" {
+								users++
+							}
+						}
+					}
+				})
+			}
+			if users >= 2 {
+				r.OK(rule, "mxj", "decoder set-up sites", p.Pos(makers[0].Pos()), fmt.Sprintf("one shared set-up function (%s) creates and configures the decoder for all %d parser entry points", p.Name(makers[0]), users))
+				return
+			}
+		}
 		r.Unknown(rule, "mxj", "decoder set-up sites", "-", fmt.Sprintf("only %d function(s) that create a decoder for the element parsers found", len(sites)))
 		return
 	}
